@@ -130,5 +130,20 @@ theorem mul_signed (a b : Bool) (x y : List Bool) (h : x.length = y.length) :
     have hp := Nat.two_pow_pos x.length
     omega
 
+theorem mul_unsigned_length (x y : List Bool) (h : x.length = y.length) (hn : 0 < x.length) :
+    (mul x y false).1.length = x.length := (mul_unsigned x y h hn).1
+
+theorem mul_signed_length (a b : Bool) (x y : List Bool) (h : x.length = y.length) :
+    (mul (a :: x) (b :: y) true).1.length = x.length + 1 := by
+  rw [mul_signed_unfold]
+  simp only [List.headD_cons]
+  cases a <;> cases b <;>
+    simp only [Bool.false_eq_true, if_false, if_true, Bool.xor_false, Bool.xor_true, Bool.not_false, Bool.not_true,
+      Bool.xor_self, neg_length]
+  · rw [mul_unsigned_length _ _ (by simp [h]) (by simp)]; simp
+  · rw [mul_unsigned_length _ _ (by simp [neg_length, h]) (by simp)]; simp
+  · rw [mul_unsigned_length _ _ (by simp [neg_length, h]) (by simp [neg_length])]; simp [neg_length]
+  · rw [mul_unsigned_length _ _ (by simp [neg_length, h]) (by simp [neg_length])]; simp [neg_length]
+
 end Arith
 end GV
